@@ -149,6 +149,13 @@ func VerifBudgetExceeded() {
 	os.Exit(97)
 }
 
+// VerifDone records that main returned (or is unwinding) and at which tick.
+func VerifDone() {
+	if verifActive() {
+		verifLog(map[string]any{"t": verifNow(), "op": "done"})
+	}
+}
+
 func verifReadFile(file string) frt.Tuple2[string, bool] {
 	verifSt.reads++
 	p := filepath.Clean(file)
